@@ -216,6 +216,33 @@ def mul(*ts):
     sort = _nsort(*ts) if ts else "R"
     if c == 0:
         return _mk("const", (Fraction(0),), sort)
+    # (a/b) (c/d) x = (a c x)/(b d): one division per product
+    if any(a.op == "div" for a in flat):
+        nums, dens = [], []
+        for a in flat:
+            if a.op == "div":
+                nums.append(a.args[0])
+                dens.append(a.args[1])
+            else:
+                nums.append(a)
+        return _quot(c, mul(*nums), mul(*dens))
+    # sqrt(a) sqrt(a) = a  (definedness of sqrt(a) is a separate obligation)
+    if sum(1 for a in flat if a.op == "sqrt") >= 2:
+        cnt = {}
+        rest = []
+        for a in flat:
+            if a.op == "sqrt":
+                cnt[a] = cnt.get(a, 0) + 1
+            else:
+                rest.append(a)
+        if any(n >= 2 for n in cnt.values()):
+            parts = list(rest)
+            for a, n in cnt.items():
+                if n // 2:
+                    parts.append(ipow(a.args[0], n // 2))
+                if n % 2:
+                    parts.append(a)
+            return mul(_mk("const", (c,), "R"), *parts)
     if not flat:
         return _mk("const", (c,), sort if c.denominator == 1 else "R")
     if sort == "I" and c.denominator != 1:
@@ -240,6 +267,89 @@ def sub(a, b):
     return add(a, neg(b))
 
 
+def _factors(t):
+    """(constant, list of non-constant factors with multiplicity)"""
+    if t.op == "const":
+        return t.args[0], []
+    if t.op == "mul":
+        if t.args[0].op == "const":
+            return t.args[0].args[0], list(t.args[1:])
+        return Fraction(1), list(t.args)
+    return Fraction(1), [t]
+
+
+def _prod(fs, sort="R"):
+    if not fs:
+        return ONE
+    if len(fs) == 1:
+        return fs[0]
+    fs = sorted(fs, key=lambda a: a.id)
+    return _mk("mul", tuple(fs), "R")
+
+
+def _scaled(c, t):
+    if c == 1:
+        return t
+    if t.op == "const":
+        return _mk("const", (c * t.args[0],), "R")
+    kc = _mk("const", (c,), "R")
+    if t.op == "mul":
+        return _mk("mul", (kc,) + t.args, "R")
+    return _mk("mul", (kc, t), "R")
+
+
+def _quot(c, num, den):
+    """c * num / den in canonical form: constants outside, no nested division,
+    syntactically common factors cancelled (den != 0 is a separate
+    definedness obligation)."""
+    while num.op == "div" or den.op == "div":
+        if num.op == "div":
+            num, den = num.args[0], mul(num.args[1], den)
+        if den.op == "div":
+            num, den = mul(num, den.args[1]), den.args[0]
+    cn, fn = _factors(num)
+    cd, fd = _factors(den)
+    if cd == 0:
+        raise ZeroDivisionError("division by the constant zero")
+    c = c * cn / cd
+    if c == 0:
+        return ZERO
+    # cancel common factors (also x^a / x^b)
+    for f in list(fd):
+        if f in fn:
+            fn.remove(f)
+            fd.remove(f)
+    def powsplit(fs):
+        d = {}
+        order = []
+        for f in fs:
+            b, e = (f.args[0], f.args[1]) if f.op == "pow" else (f, 1)
+            if b not in d:
+                order.append(b)
+            d[b] = d.get(b, 0) + e
+        return d, order
+    dn, on = powsplit(fn)
+    dd, od = powsplit(fd)
+    if any(b in dd for b in dn):
+        fn2, fd2 = [], []
+        for b in on:
+            e = dn[b] - dd.get(b, 0)
+            if e > 0:
+                fn2.append(b if e == 1 else _mk("pow", (b, e), b.sort))
+            elif e < 0:
+                fd2.append(b if e == -1 else _mk("pow", (b, -e), b.sort))
+        for b in od:
+            if b not in dn:
+                e = dd[b]
+                fd2.append(b if e == 1 else _mk("pow", (b, e), b.sort))
+        fn, fd = fn2, fd2
+    n = _prod(fn)
+    if not fd:
+        return _scaled(c, to_real(n)) if n is not ONE else _mk("const", (c,), "R")
+    d = _prod(fd)
+    return _scaled(c, _mk("div", (to_real(n), to_real(d)), "R"))
+
+
 def div(a, b):
     """Real division a / b."""
     if b.op == "const":
@@ -248,10 +358,7 @@ def div(a, b):
         return mul(_mk("const", (1 / b.args[0],), "R"), a)
     if a.op == "const" and a.args[0] == 0:
         return ZERO
-    if a is b:
-        # x/x: kept as a division so that the definedness obligation survives
-        pass
-    return _mk("div", (a, b), "R")
+    return _quot(Fraction(1), a, b)
 
 
 def ipow(a, n):
@@ -265,7 +372,45 @@ def ipow(a, n):
         return _mk("const", (a.args[0] ** n,), a.sort)
     if n == 1:
         return a
+    if a.op == "div":
+        return div(ipow(a.args[0], n), ipow(a.args[1], n))
+    if a.op == "sqrt":
+        h = ipow(a.args[0], n // 2)
+        return mul(h, a) if n % 2 else h
+    if a.op == "mul":
+        return mul(*[ipow(x, n) for x in a.args])
+    if a.op == "pow":
+        return _mk("pow", (a.args[0], a.args[1] * n), a.sort)
     return _mk("pow", (a, n), a.sort)
+
+
+def _sqrt_split(t):
+    """t = out^2 * inside with 'out' a product of |base|^k (even powers pulled out)"""
+    c, fs = _factors(t)
+    cnt = {}
+    order = []
+    for f in fs:
+        b, e = (f.args[0], f.args[1]) if f.op == "pow" else (f, 1)
+        if b.op == "add":
+            b = poly_normal(b)  # canonical form: equal factors are recognised
+        if b not in cnt:
+            order.append(b)
+        cnt[b] = cnt.get(b, 0) + e
+    out, ins = [], []
+    for b in order:
+        e = cnt[b]
+        if e // 2:
+            out.append(ipow(absv(b), e // 2))
+        if e % 2:
+            ins.append(b)
+    # perfect-square part of the constant
+    if c > 0:
+        n, d = c.numerator, c.denominator
+        rn, rd = math.isqrt(n), math.isqrt(d)
+        if rn * rn == n and rd * rd == d and c != 1:
+            out.append(_mk("const", (Fraction(rn, rd),), "R"))
+            c = Fraction(1)
+    return c, out, ins
 
 
 def sqrt(a):
@@ -279,8 +424,36 @@ def sqrt(a):
             return _mk("const", (Fraction(rn, rd),), "R")
         # irrational: the double the code would have computed
         return const(math.sqrt(float(v)), "R")
-    if a.op == "pow" and a.args[1] == 2:
-        return absv(a.args[0])
+    if a.op == "add":
+        # equal radicands written differently share one square root
+        a = poly_normal(a)
+        if a.op == "const":
+            return sqrt(a)
+    if a.op in ("mul", "pow", "div"):
+        # sqrt(x^2 r) = |x| sqrt(r): pull even powers out (numerator and denominator)
+        if a.op == "div":
+            cn, on, inn = _sqrt_split(a.args[0])
+            cd, od, ind = _sqrt_split(a.args[1])
+        else:
+            cn, on, inn = _sqrt_split(a)
+            cd, od, ind = Fraction(1), [], []
+        if on or od:
+            inside = _quot(cn / cd, _prod(inn), _prod(ind)) if ind else _scaled(cn / cd, _prod(inn))
+            if inside.op == "const" and inside.args[0] < 0:
+                return _mk("sqrt", (a,), "R")
+            r = sqrt(inside) if inside is not ONE else ONE
+            return _quot(Fraction(1), mul(r, *on), mul(*od)) if od else mul(r, *on)
+        # canonical radicand: constant * sorted canonical factors (num / den)
+        if a.op == "div":
+            a = _quot(cn / cd, _prod(inn), _prod(ind))
+        else:
+            a = _scaled(cn, _prod(inn))
+        if a.op == "const":
+            return sqrt(a)
+        if a.op == "mul" and not any(x.op in ("sqrt", "ite", "abs", "uf", "div") for x in a.args):
+            a2 = poly_normal(a)
+            if a2 is not a and size(a2) <= 4 * size(a):
+                a = a2
     return _mk("sqrt", (a,), "R")
 
 
@@ -357,6 +530,8 @@ def cmp(op, a, b):
         )
     if a is b:
         return bconst(op in ("<=", "=="))
+    if a.sort != b.sort:
+        a, b = to_real(a), to_real(b)
     d = sub(a, b)
     if d.op == "const":
         x = d.args[0]
@@ -745,3 +920,150 @@ def rebuild(op, args, sort):
     if op == "stopgrad":
         return stopgrad(args[0])
     raise NotImplementedError(op)
+
+
+# ------------------------------------------------- polynomial normal form
+
+
+def _poly_of(t, limit, memo):
+    """dict {monomial: Fraction}; monomial = tuple of (atom id, power) sorted;
+    atoms are variables and any non-polynomial subterm.  None if too large."""
+    if t in memo:
+        return memo[t]
+    op = t.op
+    if op == "const":
+        r = {(): t.args[0]} if t.args[0] != 0 else {}
+    elif op == "add":
+        r = {}
+        for a in t.args:
+            p = _poly_of(a, limit, memo)
+            if p is None:
+                r = None
+                break
+            for k, v in p.items():
+                nv = r.get(k, 0) + v
+                if nv == 0:
+                    r.pop(k, None)
+                else:
+                    r[k] = nv
+    elif op == "mul":
+        r = {(): Fraction(1)}
+        for a in t.args:
+            p = _poly_of(a, limit, memo)
+            if p is None:
+                r = None
+                break
+            r = _poly_mul(r, p, limit)
+            if r is None:
+                break
+    elif op == "pow":
+        p = _poly_of(t.args[0], limit, memo)
+        r = {(): Fraction(1)}
+        if p is None:
+            r = None
+        else:
+            for _ in range(t.args[1]):
+                r = _poly_mul(r, p, limit)
+                if r is None:
+                    break
+    elif op == "toreal":
+        r = _poly_of(t.args[0], limit, memo)
+    else:
+        r = {((t.id, 1),): Fraction(1)}
+        memo.setdefault("atoms", {})[t.id] = t
+    memo[t] = r
+    return r
+
+
+def _poly_mul(p, q, limit):
+    if len(p) * len(q) > limit * 4:
+        return None
+    r = {}
+    for k1, v1 in p.items():
+        for k2, v2 in q.items():
+            d = dict(k1)
+            for a, e in k2:
+                d[a] = d.get(a, 0) + e
+            k = tuple(sorted(d.items()))
+            nv = r.get(k, 0) + v1 * v2
+            if nv == 0:
+                r.pop(k, None)
+            else:
+                r[k] = nv
+    if len(r) > limit:
+        return None
+    return r
+
+
+def poly_normal(t, limit=400):
+    """canonical expanded form of a term that is polynomial in its atoms
+    (returns t unchanged when the expansion would exceed the limit)"""
+    if t.sort != "R" or t.op in ("const", "var"):
+        return t
+    memo = {}
+    p = _poly_of(t, limit, memo)
+    if p is None:
+        return t
+    atoms = memo.get("atoms", {})
+    monos = []
+    for k in sorted(p):
+        factors = [_mk("const", (p[k],), "R")]
+        for a, e in k:
+            at = atoms[a]
+            factors.append(at if e == 1 else ipow(at, e))
+        monos.append(mul(*factors))
+    return add(*monos) if monos else ZERO
+
+
+# ------------------------------------------------------- rational normal form
+
+
+def numden(t, memo=None):
+    """(N, D) with t = N / D, N and D free of divisions at the top level
+    (sqrt / ite / abs / uninterpreted applications are atoms)."""
+    if memo is None:
+        memo = {}
+    if t in memo:
+        return memo[t]
+    op = t.op
+    if op == "add":
+        n, d = ZERO, ONE
+        for a in t.args:
+            na, da = numden(a, memo)
+            if da is d:
+                n = add(n, na)
+            elif d is ONE:
+                n, d = add(mul(n, da), na), da
+            elif da is ONE:
+                n = add(n, mul(na, d))
+            else:
+                n, d = add(mul(n, da), mul(na, d)), mul(d, da)
+        r = (n, d)
+    elif op == "mul":
+        ns, ds = [], []
+        for a in t.args:
+            na, da = numden(a, memo)
+            ns.append(na)
+            if da is not ONE:
+                ds.append(da)
+        r = (mul(*ns), mul(*ds) if ds else ONE)
+    elif op == "div":
+        na, da = numden(t.args[0], memo)
+        nb, db = numden(t.args[1], memo)
+        r = (mul(na, db), mul(da, nb))
+    elif op == "pow":
+        na, da = numden(t.args[0], memo)
+        r = (ipow(na, t.args[1]), ipow(da, t.args[1]) if da is not ONE else ONE)
+    else:
+        r = (t, ONE)
+    memo[t] = r
+    return r
+
+
+def cross_ne(a, b):
+    """bool Term equivalent to a != b when all denominators are non-zero:
+    N_a D_b != N_b D_a"""
+    memo = {}
+    na, da = numden(a, memo)
+    nb, db = numden(b, memo)
+    return ne(mul(na, db), mul(nb, da))
